@@ -85,8 +85,8 @@ fn proj_flow(r: &flow::Rule) -> Value {
         "ctl": match r.control_strategy { flow::ControlStrategy::Reject => "reject", flow::ControlStrategy::Throttling => "throttling", _ => "custom" },
         "rel": match r.relation_strategy { flow::RelationStrategy::Current => "current", _ => "associated" },
         "thr": rat(r.threshold), "warm": r.warm_up_period_sec, "cold": r.warm_up_cold_factor, "maxq": r.max_queueing_time_ms,
-        "I": r.stat_interval_ms, "lmu": r.low_mem_usage_threshold, "hmu": r.high_mem_usage_threshold,
-        "mlw": r.mem_low_water_mark, "mhw": r.mem_high_water_mark})
+        "I": r.stat_interval_ms, "lmu": big(r.low_mem_usage_threshold), "hmu": big(r.high_mem_usage_threshold),
+        "mlw": big(r.mem_low_water_mark), "mhw": big(r.mem_high_water_mark)})
 }
 fn proj_iso(r: &isolation::Rule) -> Value {
     json!({"id": r.id, "res": r.resource, "thr": r.threshold})
@@ -225,7 +225,7 @@ fn random_line_case(rng: &mut impl Rng) -> Value {
     let mut n = |rng: &mut dyn rand::RngCore| big[(rng.next_u32() as usize) % big.len()].to_string();
     json!({"kind": "line", "item": {"ts": (1_700_000_000_000u64 + rng.gen_range(0..100_000_000u64)).to_string(), "res": names[rng.gen_range(0..names.len())],
         "pass": n(rng), "block": n(rng), "complete": n(rng), "error": n(rng), "rt": n(rng), "occupied": n(rng),
-        "conc": rng.gen_range(0..=u32::MAX).to_string(), "rtype": rng.gen_range(0..5u64).to_string()}})
+        "conc": rng.gen_range(0..=u32::MAX).to_string(), "rtype": rng.gen_range(0..=6u64).to_string()}})
 }
 
 /// byte-level robustness (outside what the specification can express): truncation at every byte and
